@@ -36,6 +36,7 @@ type Case struct {
 	LastIdx    int    `json:"lastIdx,omitempty"`
 	LinkStyle  int    `json:"linkStyle"`
 	EmptyLast  bool   `json:"emptyLastPage,omitempty"`
+	OmitEmpty  bool   `json:"omitEmptyList,omitempty"` // the empty last page leaves the list member out
 	FilterReq  bool   `json:"filterRequested,omitempty"`
 	FilterMode int    `json:"filterMode,omitempty"`
 	MaxMeta    int    `json:"maxMeta,omitempty"`  // 0 = default
@@ -59,7 +60,8 @@ func genCase(t *rapid.T) Case {
 	c.LastMode = rapid.IntRange(0, 3).Draw(t, "lastMode")
 	c.LastIdx = rapid.IntRange(0, 40).Draw(t, "lastIdx")
 	c.LinkStyle = rapid.IntRange(0, 4).Draw(t, "linkStyle")
-	c.EmptyLast = rapid.IntRange(0, 4).Draw(t, "emptyLast") == 0
+	c.EmptyLast = rapid.IntRange(0, 3).Draw(t, "emptyLast") == 0
+	c.OmitEmpty = c.EmptyLast && rapid.Bool().Draw(t, "omitEmpty")
 	c.PlainHTTP = rapid.Bool().Draw(t, "plainHTTP")
 	c.Chunked = rapid.IntRange(0, 2).Draw(t, "chunked") == 0
 	if c.Kind == "referrers" {
@@ -108,7 +110,7 @@ func runCase(c Case) (res vt.Result, fail *vt.Fail) {
 	if c.Kind == "oci-tags" {
 		return runOCITags(ctx, c, items, last, res)
 	}
-	reg := regmodel.New(host, regmodel.Profile{ReferrersAPI: true, PageCap: c.PageCap, LinkStyle: c.LinkStyle, EmptyLastPage: c.EmptyLast, FilterMode: c.FilterMode, ChunkedLists: c.Chunked})
+	reg := regmodel.New(host, regmodel.Profile{ReferrersAPI: true, PageCap: c.PageCap, LinkStyle: c.LinkStyle, EmptyLastPage: c.EmptyLast, OmitEmptyList: c.OmitEmpty, FilterMode: c.FilterMode, ChunkedLists: c.Chunked})
 	if c.PlainHTTP {
 		reg.Scheme = "http"
 	}
@@ -130,14 +132,23 @@ func runCase(c Case) (res vt.Result, fail *vt.Fail) {
 	client := &http.Client{Transport: reg}
 	var expected []string
 	var got []string
+	// the callback keeps the page slices it is handed and reads them only after the
+	// listing has returned (a caller is free to do that)
+	var kept [][]string
 	calls := 0
 	cb := func(page []string) error {
 		calls++
 		if c.FailAt > 0 && calls == c.FailAt {
 			return errCallback
 		}
-		got = append(got, page...)
+		kept = append(kept, page)
 		return nil
+	}
+	flatten := func() {
+		got = nil
+		for _, p := range kept {
+			got = append(got, p...)
+		}
 	}
 	var err error
 	var subjectDigest string
@@ -201,6 +212,7 @@ func runCase(c Case) (res vt.Result, fail *vt.Fail) {
 			return cb(page)
 		})
 	}
+	flatten()
 	// analysis of the exchange
 	reg.Lock()
 	log := append([]*regmodel.ReqRecord(nil), reg.Log...)
